@@ -737,6 +737,87 @@ def rule_at_index_no_wrap(ctx):
     r.floor(80)
 
 
+def rule_punctuator_table_in_bounds(ctx):
+    """find_punctuator() returns the `tag` pointers of the generated lookup table (punctuator_table.h, made from symbols_table.h
+    by scripts/make_punctuator_table.py) and parse_next() does strlen(punc->tag): an entry that points behind its symbols array
+    is garbage (`??/` in C++ crashed that way: a commented-out row behind the closing brace of symbols3[] was still counted)"""
+    db = ctx.db
+    r = ctx.rule("punctuator-table-in-bounds", "every `&symbolsN[k]` in the generated punc_table[] has k < number of rows of symbolsN; the row's "
+                 "character is a character of that symbol and its next_idx stays inside the table")
+    sizes = {}
+    rows = {}
+    for g in db.globals:
+        if re.match(r"^symbols\d$", g["qn"]) and (g.get("init") or {}).get("k") == "init":
+            sizes[g["qn"]] = len(g["init"]["a"])
+            rows[g["qn"]] = [(x.get("a") or [{}])[0].get("v") for x in g["init"]["a"]]
+    pt = [g for g in db.globals if g["qn"] == "punc_table" and (g.get("init") or {}).get("k") == "init"]
+    r.require(len(sizes) >= 6 and len(pt) == 1, "symbols tables / punc_table not extracted")
+    ents = pt[0]["init"]["a"]
+    n_ptr = 0
+    for idx, e in enumerate(ents):
+        a = e.get("a") or []
+        if len(a) < 4:
+            continue
+        if a[2].get("k") == "int":
+            r.seen()
+            if not (0 <= a[2]["v"] < len(ents)):                # next_idx: index of the first entry of the next level
+                r.fail("punc_table[%d]/next_idx" % idx, "src/symbols_table.h:1", "next_idx %d leaves the table of %d entries" % (a[2]["v"], len(ents)))
+        p = a[3]
+        sub = None
+        for x in [p] + (p.get("a") or []):
+            if x.get("k2") == "ArraySubscriptExpr":
+                sub = x
+        if sub is None:
+            continue
+        ref, k = sub["a"][0], sub["a"][1]
+        n_ptr += 1
+        name = ref.get("qn")
+        ok = name in sizes and k.get("k") == "int" and 0 <= k["v"] < sizes[name]
+        r.check(ok, "punc_table[%d]/&%s[%s]" % (idx, name, k.get("v")), "src/symbols_table.h:1",
+                "entry %d of the generated punctuator table points to %s[%s], but %s has %s rows: find_punctuator() returns a pointer behind the "
+                "array and parse_next() reads tag/type/lang_flags from whatever follows" % (idx, name, k.get("v"), name, sizes.get(name)))
+        if ok and a[0].get("k") == "int":
+            sym = rows[name][k["v"]] or ""
+            r.check(chr(a[0]["v"]) in sym, "punc_table[%d]/char-of-symbol" % idx, "src/symbols_table.h:1", "entry %d is for %r but points to the symbol %r" % (idx, chr(a[0]["v"]), sym))
+    r.require(n_ptr >= 80, "only %d tag pointers found in punc_table" % n_ptr)
+    r.floor(150)
+
+
+def rule_array_store_in_bounds(ctx):
+    """the same obligation as bounded-copy for the fixed-size arrays that do not hold characters (token stacks, chunk lists)"""
+    from ..bounds import Bounds
+    db = ctx.db
+    r = ctx.rule("array-store-in-bounds", "every subscript store a[i] = .. into a fixed-size array of non-character elements has an index "
+                 "whose upper bound (interval facts: literals, dominating comparisons, loop-exit facts) is below the array size")
+    n_st = 0
+    for f in sorted(db.funcs.values(), key=lambda g: (g.file, g.l0)):
+        if not f.file.startswith("src/") or f.file == "src/uncrustify_emscripten.cpp":
+            continue
+        for n in f.all_nodes():
+            if n["k"] != "asg" or (f.nodes.get(n["a"][0]) or {}).get("k") != "idx":
+                continue
+            ix = f.nodes[n["a"][0]]
+            base = f.nodes.get(ix["a"][0])
+            while base is not None and base["k"] == "cast":
+                base = f.nodes.get(base["a"][0])
+            if base is None or base["k"] not in ("ref", "mem"):
+                continue
+            m = re.match(r"^(?:const )?(.+?)\s*\[(\d+)\]$", base.get("t") or "")
+            if not m or m.group(1) in ("char", "unsigned char", "UINT8", "signed char"):
+                continue
+            n_st += 1
+            r.seen()
+            N = int(m.group(2))
+            B = Bounds(db, f, n["i"])
+            iv = B.interval(ix["a"][1])
+            wraps = [expr_str(f, i) for i, p, a, b in B.underflow if not p]
+            r.check(iv[1] is not None and iv[1] < N and not wraps, "%s/%s" % (f.qn.split("::")[-1], expr_str(f, n["a"][0])[:40]), db.loc(f, n),
+                    "the index of the store `%s` into `%s` (%d elements) is bounded by %s%s: deep nesting in the input writes behind the array"
+                    % (expr_str(f, n["i"])[:60], expr_str(f, base["i"]), N, "nothing" if iv[1] is None else iv[1], (", and `%s` can wrap" % wraps[0]) if wraps else ""))
+    r.require(n_st >= 15, "only %d subscript stores into non-character arrays found" % n_st)
+    r.floor(15)
+
+
 def rule_width_no_wrap(ctx):
     """uncrustify_file() repeats align/indent/do_code_width() `while (old_changes != cpd.changes)` with no bound of its own
     (debug_max_number_of_loops is off by default): the pass must stop asking for a split once nothing is too wide.  A column
@@ -799,4 +880,4 @@ def rule_width_no_wrap(ctx):
     r.floor(1)
 
 
-RULES = [rule_sentinel_divergence, rule_eof_divergence, rule_null_links_immutable, rule_sentinel_not_freed, rule_no_throw, rule_text_index, rule_bounded_copy, rule_exit_discipline, rule_no_error_after_output, rule_width_no_wrap, rule_at_index_no_wrap]
+RULES = [rule_sentinel_divergence, rule_eof_divergence, rule_null_links_immutable, rule_sentinel_not_freed, rule_no_throw, rule_text_index, rule_bounded_copy, rule_exit_discipline, rule_no_error_after_output, rule_width_no_wrap, rule_at_index_no_wrap, rule_punctuator_table_in_bounds, rule_array_store_in_bounds]
